@@ -4,11 +4,18 @@ random.shuffle of n >= 2 items takes one number read as a factorial-base permuta
 import math, random
 
 
+class Runaway(BaseException):
+    """more random choices than any terminating run on the input at hand can make: the code under test is not stopping
+    (a BaseException, so that no `except Exception` on the way swallows it)"""
+
+
 class Script:
-    def __init__(self, prefix=()):
-        self.prefix = list(prefix); self.pos = 0; self.trace = []
+    def __init__(self, prefix=(), max_choices=None):
+        self.prefix = list(prefix); self.pos = 0; self.trace = []; self.max_choices = max_choices
 
     def take(self, n):
+        if self.max_choices is not None and self.pos >= self.max_choices:
+            raise Runaway(self.pos)
         v = self.prefix[self.pos] if self.pos < len(self.prefix) else 0
         self.pos += 1
         self.trace.append((v, n))
@@ -49,12 +56,13 @@ class Scripted:
         random.randrange, random.shuffle, random.choice, random.sample = self.saved
 
 
-def enumerate_outcomes(run, limit=20000):
-    """run(script) -> outcome; yields (script values, outcome) for every path of the choice tree (up to limit)"""
+def enumerate_outcomes(run, limit=20000, max_choices=None):
+    """run(script) -> outcome; yields (script values, outcome) for every path of the choice tree (up to limit); with max_choices, a run that
+    asks for more choices than that gets chooser.Runaway raised from the random call"""
     prefix = []
     n = 0
     while True:
-        s = Script(prefix)
+        s = Script(prefix, max_choices)
         with Scripted(s):
             out = run(s)
         vals = [v for v, _ in s.trace]
